@@ -493,15 +493,38 @@ def gen_nd(rng, n, R, ctx, maxdim=6):
     R.append(req_nd("c11.nm1", 1e-5, "%s %s" % (lst([1000.0, 1000.0]), hx(1e-3)), q2, meta_tokens("quadN", [0.0, 0.0], 0.0) + ["dim=2"]))
 
 
+def gen_multi(rng, n, R):
+    """small multimodal objectives (sums of double wells): non-convex, so the shrink step occurs while the best vertex
+    is not stored first - the descent / consistency clauses on 'arbitrary multimodal objectives'"""
+    for i in range(n):
+        dim = 1 + i % 4
+        cs = [(dy(rng, 0, 4), dy(rng, -2, 2)) for _ in range(dim)]
+        prog = p_multiN(dim, cs)
+        start = [rng.uniform(-2.5, 2.5) for _ in range(dim)]
+        ftol = 10.0 ** -rng.randint(3, 10)
+        meta = meta_tokens("multiN") + ["dim=%d" % dim, "hd=%d" % 0]
+        kind = i % 3
+        if kind == 0:
+            R.append(req_nd("c11.nm1", ftol, "%s %s" % (lst(start), hx(rng.choice([1, -1]) * logu(rng, -0.5, 0.6))), prog, meta))
+        elif kind == 1:
+            ds = [rng.choice([1, -1]) * logu(rng, -0.5, 0.6) for _ in range(dim)]
+            R.append(req_nd("c11.nmd", ftol, "%s %s" % (lst(start), lst(ds)), prog, meta))
+        else:
+            pp = [[start[j] + rng.uniform(-2, 2) for j in range(dim)] for _ in range(dim + 1)]
+            R.append(req_nd("c11.nm", ftol, "%d %s" % (len(pp), " ".join(lst(r) for r in pp)), prog, meta))
+
+
 def generate(tier, seed, ctx):
     rng = random.Random(seed * 7919 + 11)
     R = []
     if tier == "thorough":
         gen_1d(rng, 2400, R, ctx)
         gen_nd(rng, 900, R, ctx)
+        gen_multi(rng, 400, R)
     else:
         gen_1d(rng, 400, R, ctx)
         gen_nd(rng, 100, R, ctx)
+        gen_multi(rng, 60, R)
     ctx["results"] = {}
     ctx["groups"] = {}
     return R
@@ -556,9 +579,12 @@ def trace_compare(ti, tm, bits, stopbits, ctx, what):
     return [], True
 
 
-def noise_of(prog, x):
-    v, e = ev_exact(prog, x)
-    return v, e
+def sf(x):
+    """float() that does not raise on huge rationals"""
+    try:
+        return float(x)
+    except OverflowError:
+        return math.inf if x > 0 else -math.inf
 
 
 def conv_1d(R, x, ctx):
@@ -576,7 +602,7 @@ def conv_1d(R, x, ctx):
         if dist <= D:
             bump(ctx, "conv1d.within-distance")
             return None
-        best = (float(dist), float(D)) if best is None or float(dist) < best[0] else best
+        best = (sf(dist), sf(D)) if best is None or sf(dist) < best[0] else best
     v, e = ev_exact(prog, [x])
     if v is None:
         return "objective undefined at the returned point"
@@ -586,7 +612,7 @@ def conv_1d(R, x, ctx):
         bump(ctx, "conv1d.within-rounding-flat")
         return None
     return "returned point %r is %.3g away from the minimiser (allowed %.3g) and f exceeds the minimum by %.3g (rounding allowance %.3g)" % (
-        x, best[0], best[1], float(v - fs), float(64 * (e + (es or 0))))
+        x, best[0], best[1], sf(v - fs), sf(64 * (e + (es or 0))))
 
 
 KCONV_ND = 512          # calibrated: worst observed 33 over 4269 bowl runs (dims 1-2, step/distance >= 0.03), x16
@@ -621,11 +647,11 @@ def conv_nd(R, I, ctx):
     if gap <= allow:
         if regime == "dim<=2" and allow > 0:
             key = "convND.dim<=2.max_ratio_permille_of_K"
-            ctx["stats"][key] = max(ctx["stats"].get(key, 0), int(1000 * float(gap / allow)))
+            ctx["stats"][key] = max(ctx["stats"].get(key, 0), int(1000 * sf(gap / allow)))
         return None
     bump(ctx, "convND." + regime + ".exceeds")
     msg = "f(result) exceeds the minimum by %.3g, allowed %.3g (ftol %.3g, dim %d, step/distance %.3g, %d evaluations)" % (
-        float(gap), float(allow), R["ftol"], nd, size0 / dist0 if dist0 else math.inf, len(I["tr"]))
+        sf(gap), sf(allow), R["ftol"], nd, size0 / dist0 if dist0 else math.inf, len(I["tr"]))
     return (CL_PREMATURE if small else CL_COLLAPSE if nd >= 3 else CL_CONV), msg
 
 
@@ -874,7 +900,7 @@ def corr_nd(R, impl, model, ctx):
             allow = Fraction(KCONV_ND) * Fraction(R["ftol"]) * (abs(vi) + abs(vm) + Fraction(1, 10 ** 10)) + 64 * (ei + em)
             if abs(vi - vm) > allow:
                 out.append(fail("corr", "after a rounding-level divergence the final value is not within the tolerance of the model's",
-                                "%r vs %r" % (float(vi), float(vm))))
+                                "%r vs %r" % (sf(vi), sf(vm))))
     return out
 
 
